@@ -1280,6 +1280,8 @@ class Interp(object):
         r = self.getattr_hook(obj, e.attr, e)
         if r is not NotImplemented:
             return r
+        if has_sym(obj, 'sym_method') and e.attr in getattr(obj, '__dict__', {}):
+            return obj.__dict__[e.attr]
         if isinstance(obj, (SV, PatStr)) or has_sym(obj, 'sym_method'):
             return BoundSym(obj, e.attr)
         try:
